@@ -236,6 +236,13 @@ def safeguards_rule(ck, facts):
                         if any(s3[0] == "=" and s3[2][0] == "agg" and s3[2][1].get("vname") == "ToxicGraph" for x in reach_t for s3 in fn.blocks[x]["s"]):
                             toxic = True
             key = "R6.2@%s#%s" % (fn.name, fld)
+            # a float safeguard must stay a float until it is compared: a FloatToInt cast on the way truncates a fractional
+            # factor (0.5 -> 0) and turns the documented limit `factor x N` into 0
+            for b2 in fn.blocks:
+                for s3 in b2["s"]:
+                    if s3[0] == "=" and s3[2][0] == "cast" and s3[2][1] == "FloatToInt" and s3[2][2][0] != "k" and s3[2][2][1][0] in tainted:
+                        ck.bad("R6.2", key + "#truncated", "the safeguard `%s` (a fractional factor) is cast to an integer before it is "
+                               "compared: a factor below 1 becomes 0 and every recursion is rejected as ToxicGraph" % fld, "%s:%s" % (fn.file, s3[3]))
             passes_on = re.search(r"::new$|normalize\w*$|relabel\w*$", fn.name)
             if bad and not passes_on:
                 ck.bad("R6.2", key + "#leaks", "the safeguard `%s` flows into %s: it must only decide whether to fail with ToxicGraph" % (fld, bad[0]), fn.loc)
